@@ -11,7 +11,7 @@ from .codec import OriginModel
 from .effects import Effects
 from .lin import Lin, Sym
 from .rules_C16 import CACHE_KINDS, check_counter, classify
-from .shared_state import CacheInfo, SharedWrite, World, recognise_cache, value_dependencies, write_is_definite
+from .shared_state import CacheInfo, SharedWrite, World, recognise_cache, recognise_slot_memo, value_dependencies, write_is_definite
 
 
 # ---------------------------------------------------------------------------------
@@ -376,7 +376,7 @@ def run(ctx):
     ctx.assumptions = ["callers do not mutate package internals from outside the package"]
     w = World(ctx)
     om = OriginModel(ctx.sources)
-    caches, counters, bad = classify(ctx, w)
+    caches, counters, bad = classify(ctx, w, threads=False)
 
     # ---- C17.1 ---------------------------------------------------------------------------------------------
     by_obj: Dict[str, List[SharedWrite]] = {}
@@ -386,8 +386,31 @@ def run(ctx):
         sw = sws[0]
         where = f"{w.rel_of(sw.origin_func)}:{sw.origin_line}"
         owners = sorted({s.owner for s in sws})
-        is_module_list = sw.field is None and sw.depth == 0 and obj in w.model.module_vars
-        definite = any(write_is_definite(w.model, x) for x in sws)
+        is_module_list = sw.field is None and sw.depth == 0 and obj in w.model.module_vars and ScratchDiscipline(w, obj).length is not None
+        definite = any(write_is_definite(w.model, x, threads=False) for x in sws)
+        # one-slot memo on a module-level singleton
+        slot = None
+        for x in sws:
+            for k in x.kinds:
+                if k.startswith("attr-store:"):
+                    pr = recognise_slot_memo(w.model, x.origin_func, k.split(":", 1)[1].split(" ")[0])
+                    if pr is not None:
+                        slot = (x, k.split(":", 1)[1].split(" ")[0], pr)
+        cache_fields = {fld for (_, fld) in caches}
+        if sw.field in cache_fields and all(x.depth >= 2 for x in sws):
+            ctx.unk("C17.1", f"entries of cache {obj} are modified after they were stored ({owners[0]})", where,
+                    f"`{sw.origin_text}` in {sw.origin_func} writes into an object held by the cache; single-threaded this is the initialisation of a "
+                    f"new entry only if it completes before the entry is used, which is not decided")
+            continue
+        if slot is not None:
+            x, attr, pr = slot
+            if pr:
+                ctx.bad("C17.1", f"one-slot memo {obj}.{attr} in {x.origin_func} returns a remembered result for a different argument", where, "; ".join(pr) +
+                        ": the value returned depends on which call came before")
+            else:
+                ctx.ok("C17.1", f"one-slot memo {obj}.{attr} in {x.origin_func} is keyed by exact equality of the arguments its value depends on", where,
+                       "a hit returns what a miss would compute")
+            continue
         if not definite:
             ctx.unk("C17.1", f"shared container {obj} is filled by {owners[0]}", where,
                     f"`{sw.origin_text}` in {sw.origin_func} ({', '.join(sorted(sw.kinds))}) is a keyed store that is not one of the verified cache "
@@ -412,7 +435,9 @@ def run(ctx):
         name = f"{sws[0].obj}.{fld}"
         if ci.problems:
             for p in ci.problems:
-                ctx.bad("C17.1", f"cache {name} filled by {func}: {p}", where, "the stored value is not a function of the key alone, so warm and cold caches can answer differently")
+                ctx.unk("C17.1", f"cache {name} filled by {func}: {p}", where,
+                        "the fill does not follow the verified idiom (slot store keyed by the arguments, placeholder handled, slot returned); "
+                        "whether a warm cache answers like a cold one is not decided")
         else:
             ctx.ok("C17.1", f"cache {name}: slot store keyed by `{core.src(ci.key_expr)}`, placeholder handled, slot returned", where,
                    "a warm cache returns what a cold one would compute, provided the key is complete (C17.2)")
